@@ -1256,6 +1256,88 @@ pub fn minimise_x(rt: &CRuntime, rp: &mut XReplay, mut attempts: usize) {
     rp.minimised = true;
 }
 
+/// Child side of the finalisation (see `check`): classify by the three spellings and minimise the
+/// items `start..`, one JSON line per item, each preceded by an `at` line.
+pub fn xfinal(id: &str, path: &str, start: usize) -> i32 {
+    let say = |v: serde_json::Value| {
+        let o = std::io::stdout();
+        let mut o = o.lock();
+        let _ = writeln!(o, "{}", serde_json::to_string(&v).unwrap());
+        let _ = o.flush();
+    };
+    let found: Vec<XReplay> = match std::fs::read_to_string(path).ok().and_then(|s| serde_json::from_str(&s).ok()) {
+        Some(f) => f,
+        None => {
+            say(serde_json::json!({"harness": format!("cannot read {path}")}));
+            return 2;
+        }
+    };
+    let rt = match CRuntime::build(&format!("{id}-final")) {
+        Ok(r) => r,
+        Err(e) => {
+            say(serde_json::json!({"harness": format!("building the C runtime failed: {e}")}));
+            return 2;
+        }
+    };
+    let mut per_class: BTreeMap<String, usize> = BTreeMap::new();
+    for (k, rp) in found.iter().enumerate().skip(start) {
+        say(serde_json::json!({"at": k}));
+        let mut rp = rp.clone();
+        // a violation that disappears when all binders get unique names is the name-capture defect
+        let mut class = rp.class.clone();
+        // (a front-end disagreement depends on the spelling itself and is reported as it is)
+        if let Some(tw) = rp.unique_twin.clone().filter(|_| rp.class != "FrontEnd") {
+            let tw = &tw;
+            let mut t = rp.clone();
+            t.source = tw.clone();
+            t.unique_twin = None;
+            match replay_x(&rt, &t) {
+                Ok(None) => {
+                    // passes with unique names: user-level shadowing (capture) or a clash between a
+                    // user name and a compiler-generated name?
+                    class = "Capture".into();
+                    if let Some(dw) = &rp.deshadowed_twin {
+                        let mut t2 = rp.clone();
+                        t2.source = dw.clone();
+                        t2.unique_twin = None;
+                        t2.deshadowed_twin = None;
+                        if let Ok(Some((_, m))) = replay_x(&rt, &t2) {
+                            class = "NameClash".into();
+                            rp.source = dw.clone();
+                            rp.message = format!("a user-chosen name collides with a compiler-generated one (no shadowing in the program; it behaves correctly once all binders get fresh names): {m}");
+                        }
+                    }
+                }
+                Ok(Some(_)) => {
+                    // fails without shadowing as well: report the simpler twin
+                    rp.source = tw.clone();
+                    rp.unique_twin = None;
+                }
+                Err(h) => {
+                    say(serde_json::json!({"harness": h}));
+                    return 2;
+                }
+            }
+        }
+        if class == "Capture" {
+            rp.class = "Capture".into();
+            rp.message = format!("behaviour changes when shadowed binders are renamed apart (variable capture in the pipeline): {}", rp.message);
+        }
+        let cnt = per_class.entry(class.clone()).or_default();
+        *cnt += 1;
+        if *cnt <= 4 {
+            if class == "NameClash" {
+                rp.class = "NameClash".into();
+            } else if class != "Capture" {
+                minimise_x(&rt, &mut rp, 60);
+            }
+        }
+        say(serde_json::json!({"item": {"k": k, "class": class, "rp": rp}}));
+    }
+    say(serde_json::json!({"done": true}));
+    0
+}
+
 pub fn check(id: &str, tier: &str) -> i32 {
     let t0 = std::time::Instant::now();
     let seed: u64 = std::env::var("VERIF_SEED").ok().and_then(|s| s.parse().ok()).unwrap_or(1);
@@ -1315,59 +1397,78 @@ pub fn check(id: &str, tier: &str) -> i32 {
     found.sort_by_key(|f| (f.source.len(), f.run));
     let mut per_class: BTreeMap<String, usize> = BTreeMap::new();
     let mut capture_total = 0u64;
-    for rp in &found {
-        let mut rp = rp.clone();
-        // a violation that disappears when all binders get unique names is the name-capture defect
-        let mut class = rp.class.clone();
-        // (a front-end disagreement depends on the spelling itself and is reported as it is)
-        if let Some(tw) = rp.unique_twin.clone().filter(|_| rp.class != "FrontEnd") {
-            let tw = &tw;
-            let mut t = rp.clone();
-            t.source = tw.clone();
-            t.unique_twin = None;
-            match replay_x(&rt, &t) {
-                Ok(None) => {
-                    // passes with unique names: user-level shadowing (known capture defect) or a
-                    // clash between a user name and a compiler-generated name?
-                    class = "Capture".into();
-                    if let Some(dw) = &rp.deshadowed_twin {
-                        let mut t2 = rp.clone();
-                        t2.source = dw.clone();
-                        t2.unique_twin = None;
-                        t2.deshadowed_twin = None;
-                        if let Ok(Some((_, m))) = replay_x(&rt, &t2) {
-                            class = "NameClash".into();
-                            rp.source = dw.clone();
-                            rp.message = format!("a user-chosen name collides with a compiler-generated one (no shadowing in the program; it behaves correctly once all binders get fresh names): {m}");
-                        }
-                    }
+    // classification by the three spellings and minimisation recompile candidate programs, and a
+    // broken compiler can take the whole process down (stack overflow): that work is done in a
+    // child process which is restarted behind the item it died on; that item is reported as found
+    let _ = &rt;
+    let list_path = format!("{}/work/xfinal-{}.json", verif_dir(), std::process::id());
+    let _ = std::fs::create_dir_all(format!("{}/work", verif_dir()));
+    if std::fs::write(&list_path, serde_json::to_string(&found).unwrap()).is_err() {
+        println!("HARNESS-ERROR: cannot write {list_path}");
+        return 2;
+    }
+    let mut finalised: Vec<(String, XReplay)> = Vec::new();
+    let mut start = 0usize;
+    let mut crashes = 0;
+    while start < found.len() {
+        let out = Command::new(&exe).args(["xfinal", id, &list_path, &start.to_string()]).stderr(Stdio::null()).output();
+        let Ok(out) = out else {
+            println!("HARNESS-ERROR: cannot run the finalising child process");
+            return 2;
+        };
+        let mut last_at = None;
+        let mut done = false;
+        for l in String::from_utf8_lossy(&out.stdout).lines() {
+            let Ok(v) = serde_json::from_str::<serde_json::Value>(l) else { continue };
+            if let Some(k) = v.get("at").and_then(|k| k.as_u64()) {
+                last_at = Some(k as usize);
+            } else if let Some(it) = v.get("item") {
+                let class = it.get("class").and_then(|c| c.as_str()).unwrap_or("").to_string();
+                if let Some(rp) = it.get("rp").and_then(|r| serde_json::from_value::<XReplay>(r.clone()).ok()) {
+                    finalised.push((class, rp));
                 }
-                Ok(Some(_)) => {
-                    // fails without shadowing as well: report the simpler twin
-                    rp.source = tw.clone();
-                    rp.unique_twin = None;
-                }
-                Err(h) => {
-                    println!("HARNESS-ERROR: {h}");
-                    return 2;
-                }
+            } else if v.get("done").is_some() {
+                done = true;
+            } else if let Some(h) = v.get("harness").and_then(|h| h.as_str()) {
+                println!("HARNESS-ERROR: {h}");
+                return 2;
             }
         }
+        if done {
+            break;
+        }
+        // the child died on item `last_at`: keep that item as the worker found it
+        let Some(k) = last_at else {
+            println!("HARNESS-ERROR: the finalising child process ended abnormally before its first item");
+            return 2;
+        };
+        crashes += 1;
+        if crashes > 500 {
+            println!("HARNESS-ERROR: the finalising child process keeps crashing");
+            return 2;
+        }
+        *total.notes.entry("classification/minimisation of a finding crashed the compiler under test (finding reported as found)".into()).or_default() += 1;
+        // (items before k were all emitted; k itself is missing)
+        finalised.truncate(k);
+        if finalised.len() != k {
+            println!("HARNESS-ERROR: the finalising child process skipped items");
+            return 2;
+        }
+        finalised.push((found[k].class.clone(), found[k].clone()));
+        start = k + 1;
+    }
+    let _ = std::fs::remove_file(&list_path);
+    for (class, rp) in &finalised {
+        let (class, mut rp) = (class.clone(), rp.clone());
         if class == "Capture" {
             capture_total += 1;
-            rp.class = "Capture".into();
-            rp.message = format!("behaviour changes when shadowed binders are renamed apart (variable capture in the pipeline): {}", rp.message);
         }
         let cnt = per_class.entry(class.clone()).or_default();
         *cnt += 1;
         if *cnt > 4 {
             continue;
         }
-        if class == "NameClash" {
-            rp.class = "NameClash".into();
-        } else if class != "Capture" {
-            minimise_x(&rt, &mut rp, 60);
-        }
+        let _ = &mut rp;
         if let Some(k) = known_match(&known, id, &rp.class, "x86_64", &rp.message, &rp.source) {
             known_lines.insert(format!("KNOWN-FINDING: property={id} {}", k.what));
             continue;
